@@ -1,5 +1,136 @@
-"""Thorough tier: variant matrix (filled in later)."""
+"""Thorough tier: sensitivity / specificity matrix of one property's check.
+
+For property P the quick check is re-run, by static analysis only, on scratch
+copies of /repo's *current working tree* (under $VERIF_SCRATCH, default
+/var/tmp; each copy is removed as soon as it has been analysed):
+
+* every seeded change under /verif/seeded/ whose meta.json says that P's
+  check catches it  -> the check must exit 1 (VIOLATION) on the copy,
+* every neutral (behaviour-preserving) change under /verif/neutral/ -> the
+  check must not report a violation on the copy.
+
+A seeded change that is no longer caught, or a neutral change that is
+flagged, is a defect of the *checker*: it is reported as ANALYSIS-ERROR
+(exit 2), never as a VIOLATION against /repo.  Patches that do not apply to
+the current working tree (because /repo was edited) are skipped and listed.
+Nothing of /repo is imported or executed here either.
+"""
+import concurrent.futures
+import json
+import os
+import re
+import shutil
+import subprocess
+import tempfile
+
+from .loader import AnalysisError, REPO
+
+VERIF = os.path.dirname(os.path.dirname(os.path.abspath(__file__)))
+SCRATCH = os.environ.get('VERIF_SCRATCH', '/var/tmp')
+
+
+def _make_copy(d):
+    """Scratch copy of the analysed tree (REPO) incl. uncommitted edits."""
+    repo = os.path.join(d, 'repo')
+    if os.path.isdir(os.path.join(REPO, '.git')) or os.path.isfile(
+            os.path.join(REPO, '.git')):
+        subprocess.check_call(['git', 'clone', '-q', REPO, repo])
+        diff = subprocess.run(['git', '-C', REPO, 'diff', 'HEAD'],
+                              capture_output=True, text=True).stdout
+        if diff.strip():
+            p = os.path.join(d, 'wt.diff')
+            open(p, 'w').write(diff)
+            subprocess.run(['git', '-C', repo, 'apply', '--whitespace=nowarn',
+                            p], capture_output=True)
+    else:
+        shutil.copytree(REPO, repo)
+        subprocess.run(['git', 'init', '-q', repo], capture_output=True)
+    return repo
+
+
+def _run_one(args):
+    prop, kind, vid, patch = args
+    d = tempfile.mkdtemp(prefix='verif-st.', dir=SCRATCH)
+    try:
+        repo = _make_copy(d)
+        r = subprocess.run(['git', '-C', repo, 'apply', '--3way',
+                            '--whitespace=nowarn', patch],
+                           capture_output=True, text=True)
+        conflict = subprocess.run(
+            ['grep', '-rlq', '^<<<<<<<', os.path.join(repo, 'ddsmt'),
+             os.path.join(repo, 'bin')], capture_output=True).returncode == 0
+        if r.returncode != 0 or conflict:
+            return (kind, vid, 'skipped', 'patch does not apply to the '
+                    'current working tree', [])
+        env = dict(os.environ, VERIF_REPO=repo,
+                   VERIF_EVIDENCE_DIR=os.path.join(d, 'ev'),
+                   VERIF_TIER='quick')
+        c = subprocess.run([os.path.join(VERIF, 'check'), prop, '--tier',
+                            'quick'], capture_output=True, text=True,
+                           env=env)
+        rules = sorted(set(re.findall(r'VIOLATED (C\d+\.R\w+)', c.stdout)))
+        err = ''
+        if c.returncode == 2:
+            m = re.search(r'ANALYSIS-ERROR[^\n]*', c.stdout)
+            err = m.group(0)[:160] if m else ''
+        return (kind, vid, c.returncode, err, rules)
+    finally:
+        shutil.rmtree(d, ignore_errors=True)
 
 
 def run_for(prop):
-    return {}
+    seeded_dir = os.path.join(VERIF, 'seeded')
+    neutral_dir = os.path.join(VERIF, 'neutral')
+    jobs = []
+    if os.path.isdir(seeded_dir):
+        for vid in sorted(os.listdir(seeded_dir)):
+            mp = os.path.join(seeded_dir, vid, 'meta.json')
+            pp = os.path.join(seeded_dir, vid, 'patch.diff')
+            if not (os.path.isfile(mp) and os.path.isfile(pp)):
+                continue
+            meta = json.load(open(mp))
+            if prop in meta.get('caught_by', {}):
+                jobs.append((prop, 'seeded', vid, pp))
+    if os.path.isdir(neutral_dir):
+        for vid in sorted(os.listdir(neutral_dir)):
+            pp = os.path.join(neutral_dir, vid, 'patch.diff')
+            if os.path.isfile(pp):
+                jobs.append((prop, 'neutral', vid, pp))
+    results = []
+    with concurrent.futures.ThreadPoolExecutor(16) as ex:
+        for res in ex.map(_run_one, jobs):
+            results.append(res)
+    missed = [r for r in results if r[0] == 'seeded' and r[2] == 0]
+    broken = [r for r in results if r[0] == 'seeded' and r[2] == 2]
+    flagged = [r for r in results if r[0] == 'neutral' and r[2] == 1]
+    nerr = [r for r in results if r[0] == 'neutral' and r[2] == 2]
+    skipped = [r for r in results if r[2] == 'skipped']
+    caught = [r for r in results if r[0] == 'seeded' and r[2] == 1]
+    silent = [r for r in results if r[0] == 'neutral' and r[2] == 0]
+    summary = {
+        'selftest': {
+            'seeded_expected': len([j for j in jobs if j[1] == 'seeded']),
+            'seeded_caught': len(caught),
+            'seeded_missed': [r[1] for r in missed],
+            'seeded_analysis_error': [(r[1], r[3]) for r in broken],
+            'neutral_total': len([j for j in jobs if j[1] == 'neutral']),
+            'neutral_silent': len(silent),
+            'neutral_flagged': [(r[1], r[4]) for r in flagged],
+            'neutral_analysis_error': [(r[1], r[3]) for r in nerr],
+            'skipped_patch_does_not_apply': [r[1] for r in skipped],
+            'kill_matrix': {r[1]: r[4] for r in caught},
+        }
+    }
+    print(f'  selftest {prop}: seeded {len(caught)}/'
+          f'{summary["selftest"]["seeded_expected"]} caught, neutral '
+          f'{len(silent)}/{summary["selftest"]["neutral_total"]} silent, '
+          f'{len(nerr)} neutral analysis-errors, {len(skipped)} skipped')
+    for r in nerr:
+        print(f'  selftest note: neutral {r[1]} -> {r[3]}')
+    if missed or flagged or broken:
+        summary['_selftest_error'] = (
+            f'self-test of the {prop} check failed: seeded changes no longer '
+            f'caught {[r[1] for r in missed]}, seeded changes ending in an '
+            f'analysis error {[r[1] for r in broken]}, neutral changes '
+            f'flagged {[(r[1], r[4]) for r in flagged]}')
+    return summary
